@@ -279,7 +279,7 @@ def gen_stimuli(consts):
 DRV_DEFAULTS = dict(NA=2, NB=2, ELEM=0, ALLOC=1, POCCA=0, POCMA=0, POCS=0, AE=0, CONSTRUCT=0, SIZET=64,
                     MAXSZ=0, SOCCC=0, VECTOR=0, SPACESHIP=0, GDB=0, std='c++17', cxx='g++', san=False, opt='-O1')
 
-ELEM_NAMES = ['NT', 'TM', 'MO', 'MOT', 'CO', 'TRIV', 'INT', 'MA', 'MC', 'FLT', 'SW', 'PM']
+ELEM_NAMES = ['NT', 'TM', 'MO', 'MOT', 'CO', 'TRIV', 'INT', 'MA', 'MC', 'FLT', 'SW', 'PM', 'NC']
 
 
 def drv_name(c):
